@@ -140,12 +140,12 @@ def rule_scope_order(prog):
                     src = "None"
                 out.add(b["d"], "LookupTable for `%s` is built from the enclosing procedure's local table" % kp.split("#")[0],
                         ok, bc.loc(n["sp"]), "local_table = %s, procedure context = %s" % (src, proc_bind), ("site",))
-            elif recv_t == GT and proc_bind is not None and _is_cursor_ident(bc, n["args"][0]):
+            elif recv_t == GT and (proc_bind is not None or _in_ctx(parents, GENTRY + "::Procedure")) and _is_cursor_ident(bc, n["args"][0]):
                 n_sites += 1
                 out.add(b["d"], "cursor identifier is not resolved against the global table inside a procedure", False,
                         bc.loc(n["sp"]),
                         "inside the context of procedure `%s` the identifier under the cursor is looked up directly in the "
-                        "global table: locals and parameters no longer shadow globals" % proc_bind.split("#")[0], ("site",))
+                        "global table: locals and parameters no longer shadow globals" % (proc_bind or "_").split("#")[0], ("site",))
     # every LookupTable literal (also those only handed on to helpers)
     for b in feature_bodies(prog) + [x for x in fc.bodies if x["p"].startswith("spl_frontend::table::semantic")]:
         bc = b["_crate"]
@@ -1174,6 +1174,22 @@ def rule_fmt_pure(prog):
     out.add("formatting::fmt", "output does not depend on byte positions of the input layout", not bad,
             c.loc(bad[0][1]["sp"]) if bad else "", "the printer reads Token.range: two layouts of the same token sequence can then format differently")
 
+    # rendered text is cut into lines at the line feeds the printer itself emitted, nowhere else: a token may contain any other character
+    # (a raw carriage return inside a character literal), and splitting there breaks the token
+    bad_split = None
+    for b in fmt_bodies:
+        for mc in hir.nodes(b["body"], "MethodCall"):
+            if mc["m"] in ("split", "split_terminator", "split_inclusive", "rsplit", "splitn", "split_once") and mc["args"] and \
+                    "str" in c.tstr(hir.strip(mc["recv"])["t"]) + "".join(c.tstr(a_["to"]) for a_ in (hir.strip(mc["recv"]).get("adj") or [])):
+                v = hir.lit_value(hir.strip(mc["args"][0]))
+                if v is not None and v not in ("\n", "\\n"):
+                    bad_split = mc
+            if mc["m"] in ("split_whitespace", "split_ascii_whitespace"):
+                bad_split = mc
+    out.add("formatting::fmt", "rendered text is split into lines at line feeds only", bad_split is None,
+            c.loc((bad_split or fmt_bodies[0])["sp"]), "the layout step splits rendered text at a character other than the line feed: a token that "
+            "contains that character (a carriage return in a character literal) is broken in two, the formatted program has other tokens", ("split",))
+
     def sig(b):
         if "sig_in" not in b:
             return None, None
@@ -1351,6 +1367,31 @@ def rule_comment_pairing(prog):
                 c.loc((bad_sel or hb)["sp"]), "`.%s(..)` in the comment helper selects by something other than the token kind (e.g. the comment's "
                 "text): a comment is dropped although it stands where it must be kept - two comments with the same text are enough"
                 % (bad_sel["m"] if bad_sel else ""), ("helper",))
+    # order: comments are re-attached in source order.  Token iterators that are reversed (`.rev()`) to look at the end of a slice must
+    # be turned round again before their texts are joined
+    for b in c.bodies:
+        if not b["p"].startswith("lsp4spl::features::formatting") or "/tests" in c.file_of(b["sp"]) or b["k"] == "closure":
+            continue
+        for mc, parents in hir.walk(b["body"]):
+            if mc.get("k") != "MethodCall" or mc["m"] != "rev" or "Token" not in c.tstr(hir.strip(mc["recv"])["t"]):
+                continue
+            # the adaptor chain above this call
+            chain_ms = []
+            child = mc
+            for pr in reversed(list(parents)):
+                if pr.get("k") == "MethodCall" and any(x is child for x in hir.nodes(pr["recv"])):
+                    chain_ms.append(pr["m"])
+                    child = pr
+                else:
+                    break
+            joins = any(m_ in ("collect", "concat", "join", "fold", "reduce", "for_each", "sum") for m_ in chain_ms)
+            produces_text = any(x.get("k") == "MethodCall" and x["m"] in ("to_string", "fmt") for pr in parents for x in ([pr] if pr.get("k") == "MethodCall" else []) for x in hir.nodes(pr)) 
+            turned_back = chain_ms.count("rev") % 2 == 1
+            if joins and produces_text:
+                seen += 1
+                out.add(b["d"], "token texts collected from a reversed iterator are turned round again", turned_back, c.loc(mc["sp"]),
+                        "the comments are gathered walking backwards and joined in that order: two comment lines come out swapped, and "
+                        "every further formatting run swaps them again (never `null`)", ("order",))
     # `all` is sound only for nodes whose printed children print no comments themselves: applied to a node whose text was rendered by
     # children that re-attach their own comments (or print raw token slices), every inner comment is printed twice - and again on the
     # next formatting run, so the formatter is not idempotent either
